@@ -405,7 +405,10 @@ func retFor(kind string, i int) sb.ValDesc {
 		}
 		return sb.ValDesc{T: "int", I: v}
 	case strings.HasPrefix(kind, "float"):
-		return sb.ValDesc{T: "float", F: []float64{0, 2.5, -0.125, 1e300, math.Copysign(0, -1)}[i%5]}
+		// incl. values that are not short decimals in float32 (0.1f is 0.10000000149011612): the script must get
+		// the exact widening of what Go returned
+		pool := []float64{0, 2.5, -0.125, 1e300, math.Copysign(0, -1), 0.1, 1.1, math.MaxFloat32, math.SmallestNonzeroFloat32, 1.0 / 3}
+		return sb.ValDesc{T: "float", F: pool[i%len(pool)]}
 	case kind == "string":
 		return sb.Str([]string{"", "ret", "\x00\xff", "日本"}[i%4])
 	}
